@@ -167,6 +167,8 @@ class Strh(ThumbInstruction):
 
     def encode(self):
         opcode = 0x10
+        if self.imm5 < 0:
+            raise ValueError(f"Cannot encode negative offset {self.imm5}")
         assert self.rn.num < 8
         assert self.rt.num < 8
         rn = self.rn.num
